@@ -148,7 +148,7 @@ def check(run):
         for data, err in r["plain"]:
             if data:
                 valid.append(data)
-    n_mut = 8000 if quick else 2000000
+    n_mut = 8000 if quick else 250000
     for v in valid[:300]:
         inputs.append(("valid", v))
     trees = []
